@@ -123,8 +123,14 @@ MCEmpty ==
                /\ KEmpty(n.path) /\ mcPids' = [p \in DOMAIN mcPids |-> IF p = n.path THEN {} ELSE mcPids[p]]
   /\ UNCHANGED <<mcInv, mcOpens, mcTimeout, mcRan>>
 
+\* a child that is no candidate yet vanishes inside the tick (MidRun = "any" only)
+MCGone ==
+  /\ MidRun = "any" /\ kph = "dfs" /\ kcfg.recursive
+  /\ \E n \in kw : KGone(n.path) /\ mcPids' = [p \in {q \in DOMAIN mcPids : ~IsUnder(q, n.path)} |-> mcPids[p]]
+  /\ UNCHANGED <<mcInv, mcOpens, mcTimeout, mcRan>>
+
 MCNext ==
-  \/ MCStart \/ MCEmpty \/ MCEnv \/ MCRun \/ MCHook \/ MCAttempt
+  \/ MCStart \/ MCEmpty \/ MCGone \/ MCEnv \/ MCRun \/ MCHook \/ MCAttempt
   \/ (KSilent /\ IF kph' = "attempt" THEN mcOpens' = 0 /\ UNCHANGED <<mcPids, mcInv, mcTimeout, mcRan>> ELSE UNCHANGED mcv)
   \/ (KRet(kret) /\ UNCHANGED mcv)
 
